@@ -201,7 +201,7 @@ pub mod inv {
         let mut live_blocks = 0u64;
         for (i, r) in snap.iter().enumerate() {
             if r.sector == 0 {
-                out.push(Finding { props: &["C05", "C02"], what: format!("after an acknowledged flush key {} has no extent", super::hex(&r.key)) });
+                out.push(Finding { props: &["C05", "C02", "C10"], what: format!("after an acknowledged flush key {} has no extent", super::hex(&r.key)) });
                 return out;
             }
             let n = (header(version, r.key.len()) + r.value_len).div_ceil(BS).max(1);
